@@ -26,7 +26,8 @@ VARIANTS = (
 @st.composite
 def schur_cases(draw, tier):
     n = draw(st.integers(1, 6 if tier == "quick" else 7))
-    kind = draw(st.sampled_from(["generic", "generic", "hermitian", "triangular", "normal", "lowrank", "int"]))
+    kind = draw(st.sampled_from(["generic", "generic", "hermitian", "triangular", "normal", "lowrank", "int",
+                                 "lower_triangular", "hessenberg", "banded", "sparse_units", "block_diag"]))
     if kind == "generic":
         A = draw(gen.qarray(n, n, "generic"))[0] / 4.0
     elif kind == "int":
@@ -40,6 +41,25 @@ def schur_cases(draw, tier):
         for i in range(n):
             for j in range(i):
                 A[i, j] = 0.0
+    elif kind in ("lower_triangular", "hessenberg", "banded", "block_diag"):
+        # exact zero patterns (already reduced / decoupled inputs reach the reductions' and iterations' special cases);
+        # the non-zero entries stay genuinely quaternionic (integer or dyadic)
+        A = draw(gen.qarray(n, n, draw(st.sampled_from(["generic", "int", "units"]))))[0].copy()
+        if kind != "lower_triangular" and draw(st.booleans()):
+            A = A / 4.0
+        lo = {"lower_triangular": n, "hessenberg": 1, "banded": draw(st.integers(1, 2)), "block_diag": n}[kind]
+        up = {"lower_triangular": 0, "hessenberg": n, "banded": draw(st.integers(0, 2)), "block_diag": n}[kind]
+        for i in range(n):
+            for j in range(n):
+                if i - j > lo or j - i > up:
+                    A[i, j] = 0.0
+        if kind == "block_diag" and n >= 2:
+            c = draw(st.integers(1, n - 1))
+            A[c:, :c] = 0.0
+            if draw(st.booleans()):
+                A[:c, c:] = 0.0
+    elif kind == "sparse_units":
+        A = draw(gen.qarray(n, n, draw(st.sampled_from(["sparse", "units"]))))[0]
     elif kind == "normal":
         Uf = draw(gen.unitary(n))
         D = np.zeros((n, n, 4))
@@ -135,13 +155,16 @@ def check_schur(case):
                 for j in range(n):
                     if i != j:
                         off = max(off, float(ref.modulus(Tf[i, j])))
-            out.le(site + ":Hermitian input gives diagonal T", off, 30.0 * tau * max(1.0, an) + 2 * simerr + 1e-300)
+            diag_ok = out.le(site + ":Hermitian input gives diagonal T", off, 30.0 * tau * max(1.0, an) + 2 * simerr + 1e-300)
             d = np.array([Tf[i, i, 0] for i in range(n)])
             im = max(float(np.sqrt(np.sum(Tf[i, i, 1:] ** 2))) for i in range(n))
             out.le(site + ":Hermitian input gives real diagonal", im, 10.0 * tau * max(1.0, an) + 2 * simerr + 1e-300)
             lam = ref.eigvalsh(A)
-            out.le(site + ":Hermitian input: diag T carries the eigenvalues", float(np.max(np.abs(np.sort(d) - np.sort(lam)))),
-                   10.0 * n * tau * max(1.0, an) + 2 * simerr + 1e-300)
+            # only a diagonal T has "its diagonal = the spectrum"; a non-diagonal T is already reported above (one root
+            # cause, one report)
+            if diag_ok:
+                out.le(site + ":Hermitian input: diag T carries the eigenvalues", float(np.max(np.abs(np.sort(d) - np.sort(lam)))),
+                       10.0 * n * tau * max(1.0, an) + 2 * simerr + 1e-300)
     out.nontrivial = n >= 3 and sweeps >= 1
     out.sample = {"n": n, "variant": vt, "kind": case["kind"], "converged": conv, "sweeps": sweeps}
     return out
@@ -151,7 +174,7 @@ PROPERTY = Property(
     id="C10",
     title="Every Schur variant preserves the unitary similarity A = Q T Q^H",
     rule="n >= 3 and the run performed >= 1 sweep",
-    clauses=[Clause("schur", check_schur, strategy=schur_cases, budget={"quick": 400, "thorough": 16000}, min_per_shard=8,
+    clauses=[Clause("schur", check_schur, strategy=schur_cases, budget={"quick": 1600, "thorough": 20000}, min_per_shard=8,
                     shrink=False)],
     assumptions=[
         "similarity tolerance = 10 n (1+sweeps) tau max(1,||A||) + 1e3 n u (n+sweeps) ||A||, tau the variant's effective "
